@@ -13,7 +13,9 @@ Streams
                       divisor batch size (and some non-divisors), all five loss types; the batches
                       visited inside `reconstruct` vs the model's schedule
   determinism bitwise same seed twice / same object after `reset=True` → identical iter_losses
-  history     bitwise one object: run(reset=True); continue without reset (1 and 2 iterations); run(reset=True)
+  history     bitwise seeds: small, >= 2**32, >= 2**64, 128-bit, as int / np.random.Generator / torch.Generator; first run of
+                      a fresh object with AND without reset;
+                      one object: run(reset=True); continue without reset (1 and 2 iterations); run(reset=True)
                       again → identical iter_losses AND identical batch schedule, also vs a fresh same-seed object;
                       every call of the history is replayed through the model's `reconstruct`/`reset_recon` state
                       machine (generator position, reset-before-batcher order, epoch loss = mean over the yielded
@@ -37,7 +39,7 @@ TRUSTED = ["NumPy Generator determinism: np.random.default_rng(seed) reproduces 
            "torch autograd / optimizers (gradient invariance and determinism of real runs are measured, not proved)",
            "Lean Float = IEEE binary64 (n_val = round(n*ratio) and k = round(1/ratio) are computed in the model exactly as in Python)"]
 ASSUMPTIONS = ["invariance of losses/gradients is judged for autograd=True (the default); with autograd=False the 'gradient' is an overlap-normalised update direction whose normalisation depends on the batch — its deviation is reported under measured.analytic_grad_rel_dev, no verdict",
-               "'same seed' means every rng= argument (Ptychography, object model, probe model) receives the same seed",
+               "'same seed' means every rng= argument (Ptychography, object model, probe model) receives the same seed, each in the same form (int, fresh np.random.Generator, fresh torch.Generator); unseeded objects (rng=None) carry no determinism claim and are not generated",
                "user supplied train_indices/val_indices are not validated by the code: the partition clauses are judged only when the supplied lists are a partition (other inputs are compared with the model only)",
                "gradient/loss comparison tolerance 5e-4 relative to the full-batch magnitude (float32 path); parameters are frozen (optimizer step skipped) while batches are recorded"]
 EXPLANATION = ("Theorems in Props/C09.lean are about Model/Batcher.lean; each run enumerates the real SimpleBatcher and subdivide_batches against the "
@@ -379,11 +381,27 @@ def divisors(n):
     return [d for d in range(1, n + 1) if n % d == 0]
 
 
+def pick_seed(rng):
+    """(seed, form): small ints, values >= 2**32, >= 2**64 and 128-bit entropies, through every form rng= accepts"""
+    form = rng.weighted([("int", 4), ("np_generator", 3), ("torch_generator", 2)])
+    size = rng.weighted([("small", 3), ("ge32", 3), ("ge64", 2 if form != "torch_generator" else 0), ("bits128", 2 if form != "torch_generator" else 0)])
+    if size == "small":
+        seed = rng.below(1 << 20)
+    elif size == "ge32":
+        seed = (1 << rng.randint(32, 62)) + rng.below(1 << 20)
+    elif size == "ge64":
+        seed = (1 << rng.randint(64, 100)) + rng.below(1 << 30)
+    else:
+        seed = (rng.next() << 64) | rng.next() | (1 << 127)
+    return seed, form, size
+
+
 def gen_numeric_cfg(rng, i):
     scan = rng.choice([(4, 3), (3, 4), (4, 4), (5, 3), (3, 5), (5, 4), (6, 4), (4, 5), (6, 5), (6, 6), (2, 6), (6, 3)])
     roi = rng.choice([(8, 8), (8, 10), (10, 8), (10, 10), (12, 12), (9, 9), (8, 12), (11, 8)])
     val = rng.weighted([((0.0, "grid"), 5), ((0.25, "grid"), 2), ((0.2, "random"), 2), ((0.5, "grid"), 1), ((0.75, "grid"), 1)])
-    return {"scan": list(scan), "roi": list(roi), "seed": rng.below(1000), "rng_seed": rng.below(1 << 20),
+    sd, form, size = pick_seed(rng)
+    return {"scan": list(scan), "roi": list(roi), "seed": rng.below(1000), "rng_seed": sd, "rng_form": form, "seed_size": size,
             "loss_type": LOSS_TYPES[i % len(LOSS_TYPES)] if i < 2 * len(LOSS_TYPES) else rng.choice(LOSS_TYPES),
             "obj_init": rng.choice(["uniform", "random", "random"]), "num_probes": rng.weighted([(1, 3), (2, 1)]),
             "val_ratio": val[0], "val_mode": val[1], "obj_type": rng.weighted([("complex", 3), ("pure_phase", 1), ("potential", 1)])}
@@ -391,7 +409,7 @@ def gen_numeric_cfg(rng, i):
 
 def build(cfg):
     from props import ptycho_tiny as pt
-    return pt.make_ptycho(scan=tuple(cfg["scan"]), roi=tuple(cfg["roi"]), seed=cfg["seed"], rng_seed=cfg["rng_seed"],
+    return pt.make_ptycho(scan=tuple(cfg["scan"]), roi=tuple(cfg["roi"]), seed=cfg["seed"], rng_seed=cfg["rng_seed"], rng_form=cfg.get("rng_form", "int"),
                           num_probes=cfg["num_probes"], obj_type=cfg["obj_type"], obj_init=cfg["obj_init"],
                           val_ratio=cfg["val_ratio"], val_mode=cfg["val_mode"])
 
@@ -591,9 +609,9 @@ def history_case(ctx, drv, cfg, b):
 
     log = []      # every reconstruct call made on the history object, for the model tie
 
-    def go(p, reset, n_it, keep=False):
+    def go(p, reset, n_it, keep=False, first=False):
         rec = pt.record_batches(p, b, num_iters=n_it, freeze=False, reset=reset, loss_type=cfg["loss_type"],
-                                optimizer_params=pt.sgd_params(cfg["lr"], cfg["lr"]), keep_optimizers=not reset)
+                                optimizer_params=pt.sgd_params(cfg["lr"], cfg["lr"]), keep_optimizers=(not reset) and not first)
         sched = [(e["iter"], e["val"], e["indices"]) for e in rec]
         n_hist = len(p.iter_losses)
         if keep:
@@ -612,23 +630,32 @@ def history_case(ctx, drv, cfg, b):
     case = {"stream": "history", "cfg": cfg, "b": b}
     with pt.no_gc():
         p = build(cfg)
-        A = go(p, True, iters, keep=True)
+        first_reset = cfg.get("first_reset", True)       # False: the very first run on the fresh object is made WITHOUT reset
+        A = go(p, first_reset, iters, keep=True, first=True)
         runs = []
+        if not first_reset:
+            runs.append((0, go(p, True, iters, keep=True)))   # fresh object → run → reset run: must equal the first run
         for k in cfg.get("cont", [1, 2]):
             cont = go(p, False, k, keep=True)
             if cont["n_hist"] != iters + k:
                 ctx.pred_fail("continue-history-length", "continuing without reset does not append to the loss history", dict(case, k=k),
                               observed=cont["n_hist"], required=iters + k)
             runs.append((k, go(p, True, iters, keep=True)))
-        F = go(build(cfg), True, iters)
+        F = go(build(cfg), rng_first_reset(cfg), iters, first=True)
     N = int(p.dset.num_gpts)
     for k, C in runs:
         ctx.count()
-        ctx.mark(("history", tuple(cfg["scan"]), tuple(cfg["roi"]), cfg["loss_type"], b, cfg["val_ratio"], cfg["val_mode"], k))
+        ctx.mark(("history", tuple(cfg["scan"]), tuple(cfg["roi"]), cfg["loss_type"], b, cfg["val_ratio"], cfg["val_mode"], k, cfg.get("rng_form"), cfg.get("seed_size"), cfg.get("first_reset", True)))
         ctx.dist[f"history:val={'0' if cfg['val_ratio'] == 0 else cfg['val_mode']},cont={k}"] += 1
+        ctx.dist[f"history:seed={cfg.get('seed_size')}/{cfg.get('rng_form')},first_reset={cfg.get('first_reset', True)}"] += 1
         ck = dict(case, k=k)
+        if k == 0 and (C["losses"] != A["losses"] or C["val"] != A["val"] or C["sched"] != A["sched"]):
+            ctx.pred_fail("determinism-reset-after-first-run", "fresh seeded object: run WITHOUT reset, then run(reset=True): the reset run's loss history / batch schedule differs from the first run", ck,
+                          observed={"first": A["losses"], "after_reset": C["losses"], "first_batches": A["sched"][:1], "after_reset_batches": C["sched"][:1],
+                                    "rng_seed": cfg["rng_seed"], "rng_form": cfg.get("rng_form")}, required="bit-identical")
+            continue
         if C["losses"] != A["losses"] or C["val"] != A["val"]:
-            ctx.pred_fail("determinism-reset-after-continue", f"run(reset=True), continue {k} iteration(s) without reset, run(reset=True): the second reset run's loss history differs from the first", ck,
+            ctx.pred_fail("determinism-reset-after-continue", f"run(reset={cfg.get('first_reset', True)}), continue {k} iteration(s) without reset, run(reset=True): the reset run's loss history differs from the first run", ck,
                           observed={"first": A["losses"], "after_continue_and_reset": C["losses"], "val_first": A["val"], "val_after": C["val"]}, required="bit-identical")
         if C["sched"] != A["sched"]:
             i = next((j for j, (x, y) in enumerate(zip(A["sched"], C["sched"])) if x != y), min(len(A["sched"]), len(C["sched"])))
@@ -668,7 +695,7 @@ def history_case(ctx, drv, cfg, b):
         for _ in range(r["iters"]):
             table.setdefault(pos, [int(x) for x in twin.permutation(np.asarray(tr, dtype=int))])
             pos += 1
-    m = drv.ask({"op": "history", "n": N, "ratio": f2b(cfg["val_ratio"]), "mode": cfg["val_mode"], "seed": cfg["rng_seed"],
+    m = drv.ask({"op": "history", "n": N, "ratio": f2b(cfg["val_ratio"]), "mode": cfg["val_mode"], "seed": 1,
                  "table": [table[i] for i in range(len(table))], "runs": [{k: v for k, v in r.items() if k != "impl"} for r in log]})
     if "ok" not in m:
         raise HarnessError(f"driver error {m}")
@@ -691,8 +718,17 @@ def history_case(ctx, drv, cfg, b):
     ctx.sample({"stream": "history", "cfg": cfg, "b": b, "losses_first_run": A["losses"], "continuations": cfg.get("cont", [1, 2])}, limit=6)
 
 
+def rng_first_reset(cfg):
+    """the fresh comparison object alternates between a first run with and without reset (both must give the same history)"""
+    return (cfg["rng_seed"] + cfg["iters"]) % 2 == 0
+
+
 def gen_history_cfg(rng, i):
     c = gen_det_cfg(rng)
+    c["first_reset"] = (i % 2 == 1)
+    if i % 4 == 0:          # the combination that needs most: a seed that does not fit in 32 bit, first run without reset
+        while c["seed_size"] == "small":
+            c["rng_seed"], c["rng_form"], c["seed_size"] = pick_seed(rng)
     c["val_ratio"], c["val_mode"] = [(0.0, "grid"), (0.25, "grid"), (0.3, "random"), (0.0, "grid"), (0.5, "grid"), (0.2, "random")][i % 6]
     c["cont"] = [[1, 2], [2, 1]][i % 2]
     c["iters"] = 2 + (i % 2)
@@ -739,7 +775,7 @@ def run(ctx):
             n = cfg["scan"][0] * cfg["scan"][1]
             guarded(ctx, determinism_case, {"stream": "determinism"}, ctx, cfg, rng.choice([2, 3, 4, 5, 7, n // 2, n - 1]))
         rng = ctx.rng.fork(4)
-        for i in range(ctx.n(4, 24)):
+        for i in range(ctx.n(8, 32)):
             cfg = gen_history_cfg(rng, i)
             n = cfg["scan"][0] * cfg["scan"][1]
             n_train = n - py_nval(n, cfg["val_ratio"])
